@@ -193,3 +193,51 @@ Proof.
   - intros. symmetry. now apply cc_enc_C.
   - intros u v Hin. apply filter_In in Hin as [Hin _]. apply In_pairs_upto in Hin. lia.
 Qed.
+
+(* ---------- T3: satisfiable iff k <= n, k <= c and (n = 0 or c >= 1) ---------- *)
+From Cnfgen Require Import Fam_php_Facts.
+
+Theorem cliquecol_sat_iff n k c : 0 <= n -> 0 <= k -> 0 <= c ->
+  ((exists a, irs_hold a (cliquecol_ir n k c) = true) <-> k <= n /\ k <= c /\ (n = 0 \/ 1 <= c)).
+Proof.
+  intros Hn Hk Hc. split.
+  - intros [a Ha]. apply cliquecol_T1 in Ha; try assumption.
+    set (E := cc_E a n) in *. set (Q := cc_Q a n) in *. set (C := cc_C a n k c) in *.
+    destruct Ha as (H1 & H2 & H3 & H4 & H5 & H6 & H7).
+    set (q := fun i => first_such (Q i) 1 (n + 1)).
+    assert (Hq : forall i, 1 <= i <= k -> 1 <= q i <= n /\ Q i (q i) = true).
+    { intros i Hi. destruct (H1 i Hi) as [u [Hu Qt]].
+      destruct (first_such_spec (Q i) 1 (n + 1)) as [A B]; [exists u; split; [lia|assumption]|]. split; [unfold q; lia|exact B]. }
+    assert (Hqinj : forall i1 i2, 1 <= i1 <= k -> 1 <= i2 <= k -> q i1 = q i2 -> i1 = i2).
+    { intros i1 i2 Hi1 Hi2 Eq. destruct (Hq i1 Hi1) as [A1 B1]. destruct (Hq i2 Hi2) as [A2 B2].
+      apply (H3 (q i1)); auto. now rewrite Eq. }
+    set (col := fun i => first_such (C (q i)) 1 (c + 1)).
+    assert (Hcol : forall i, 1 <= i <= k -> 1 <= col i <= c /\ C (q i) (col i) = true).
+    { intros i Hi. destruct (Hq i Hi) as [A B]. destruct (H5 (q i) A) as [l [Hl Ct]].
+      destruct (first_such_spec (C (q i)) 1 (c + 1)) as [A' B']; [exists l; split; [lia|assumption]|]. split; [unfold col; lia|exact B']. }
+    split; [|split].
+    + apply (pigeonhole_core q); auto. intros i Hi. apply Hq, Hi.
+    + apply (pigeonhole_core col); auto; [intros i Hi; apply Hcol, Hi|].
+      intros i1 i2 Hi1 Hi2 Ec. destruct (Z.eq_dec i1 i2) as [|Hne]; [assumption|exfalso].
+      destruct (Hq i1 Hi1) as [A1 B1]. destruct (Hq i2 Hi2) as [A2 B2].
+      destruct (Hcol i1 Hi1) as [C1 D1]. destruct (Hcol i2 Hi2) as [C2 D2].
+      assert (q i1 <> q i2) as Hqne by (intros Eq; apply Hne, Hqinj; auto).
+      destruct (H4 i1 i2 (q i1) (q i2)) as [Hin|Hin]; auto.
+      * apply (H7 (q i1) (q i2) (col i1)); auto. now rewrite Ec.
+      * apply (H7 (q i2) (q i1) (col i1)); auto. now rewrite Ec.
+    + destruct (Z.eq_dec n 0) as [|Hne]; [now left|right]. destruct (H5 1 ltac:(lia)) as [l [Hl _]]. lia.
+  - intros (Hkn & Hkc & Hnc).
+    destruct (cliquecol_T2 n k c (fun e => snd e <=? k) (fun i u => i =? u)
+                (fun v l => if v <=? k then l =? v else l =? 1) Hn Hk Hc) as [a [Ha _]]; [|eauto].
+    repeat split.
+    + intros i Hi. exists i. split; lia.
+    + intros; lia.
+    + intros; lia.
+    + intros i1 i2 u v Hi1 Hi2 Hne Hu Hv Huv Q1 Q2. unfold adjacent.
+      destruct (Z.lt_trichotomy u v) as [Hlt|[Heq|Hgt]]; [left|lia|right];
+        apply filter_In; (split; [apply In_pairs_upto; lia|cbn; lia]).
+    + intros v Hv. destruct (Z.leb_spec v k); [exists v; split; lia|exists 1; split; lia].
+    + intros v l1 l2 Hv Hl1 Hl2. destruct (v <=? k); lia.
+    + intros u v l Hin Hl. apply filter_In in Hin as [Hp Hle]. apply In_pairs_upto in Hp. cbn in Hle.
+      destruct (Z.leb_spec u k); destruct (Z.leb_spec v k); lia.
+Qed.
